@@ -3,6 +3,9 @@ use crate::engine::run::Ctx;
 pub mod common;
 pub mod gens;
 pub mod roundtrip;
+pub mod rules;
+pub mod targets;
+pub mod writers;
 
 pub fn run(ctx: &mut Ctx) -> bool {
     match ctx.prop {
@@ -10,6 +13,10 @@ pub fn run(ctx: &mut Ctx) -> bool {
         "C03" => roundtrip::c03(ctx),
         "C04" => roundtrip::c04(ctx),
         "C05" => roundtrip::c05(ctx),
+        "C06" => writers::c06(ctx),
+        "C07" => writers::c07(ctx),
+        "C16" => writers::c16(ctx),
+        "C17" => writers::c17(ctx),
         _ => return false,
     }
     true
